@@ -1,6 +1,6 @@
 """C08 - every documented operation is offered with its effective parameters, or reported.
 
-Generator: OpenAPI 3.0 documents (1-3 path items x 1-3 operations) with parameters at path and operation level that
+Generator: OpenAPI 3.0 / 3.1 documents and their Swagger 2.0 rendering (1-3 path items x 1-3 operations) with parameters at path and operation level that
 overlap by (name, in) or only by name, parameters and request bodies behind 0-2 `$ref` hops, path items behind `$ref`,
 unresolvable references in single operations, security at root / operation level / `[]`; laid out in one file or in
 several files (path items and a decoy `components` section in a second file, so that a leaked resolution scope resolves
@@ -32,7 +32,7 @@ RULE = (
     "between path and operation level, a `$ref` chain, a `$ref`'d path item, a broken reference or a YAML-sensitive key, and the history has >=2 access kinds; "
     "distinct by canonical JSON of (document, layout, history position)"
 )
-ASSUMPTIONS = ["OpenAPI 3.0 documents only (the parameter-merging code is shared by all dialects)", "unknown `in` values are not generated (dropped on purpose by add_parameter)"]
+ASSUMPTIONS = ["OpenAPI 3.0 / 3.1 documents and their Swagger 2.0 rendering (cookie parameters become formData, requestBody becomes an `in: body` parameter with operation-level or global `consumes`)", "unknown `in` values are not generated (dropped on purpose by add_parameter)"]
 
 LOCS = ["query", "header", "cookie", "path"]
 NAMES = ["id", "q", "X-A"]
@@ -119,10 +119,21 @@ def document(draw):
         doc["x-items"] = xitems
     history = draw(st.lists(st.sampled_from(["iter", "getitem", "by_id", "by_ref", "by_id", "getitem"]), min_size=1, max_size=5))
     picks = draw(st.lists(st.integers(0, 50), min_size=len(history), max_size=len(history)))
+    dialect = draw(st.sampled_from(["3.0", "3.0", "3.1", "2.0"]))
+    if dialect == "3.1":
+        doc["openapi"] = "3.1.0"
+    elif dialect == "2.0":
+        doc = to_swagger2(
+            doc,
+            global_consumes=draw(st.sampled_from([None, None, ["application/json"], ["text/plain"], ["application/x-www-form-urlencoded"]])),
+            consumes=draw(st.sampled_from([None, ["application/json"], ["application/xml", "application/json"]])),
+            form_consumes=draw(st.sampled_from([None, ["application/x-www-form-urlencoded"], ["multipart/form-data", "application/x-www-form-urlencoded"]])),
+            salt=draw(st.integers(0, 3)),
+        )
     return {"doc": doc, "broken": broken, "history": [[h, k] for h, k in zip(history, picks)], "layout": draw(st.sampled_from(["single", "single", "multi"])), "format": draw(st.sampled_from(["dict", "json-file", "yaml-file", "yaml-file"]))}
 
 
-# ---- independent resolver ------------------------------------------------------------------------------------
+# ---- independent resolver (placed first: the Swagger rendering below uses `resolve`) ------------------------------------------------------------------------------------
 
 
 def resolve(doc, node):
@@ -134,6 +145,93 @@ def resolve(doc, node):
         node = cur
         hops += 1
     return node
+
+
+# ---- Swagger 2.0 rendering of a drawn document ------------------------------------------------------------------
+
+
+def _param2(p):
+    """OpenAPI 3 parameter object -> Swagger 2.0 one (context-free, so shared definitions convert once)."""
+    if "$ref" in p:
+        return {"$ref": p["$ref"].replace("#/components/parameters/", "#/parameters/")}
+    q = {"name": p["name"], "in": "formData" if p["in"] == "cookie" else p["in"]}
+    q.update({k: v for k, v in p["schema"].items() if k != "example"})
+    if p.get("required"):
+        q["required"] = True
+    return q
+
+
+def to_swagger2(doc, global_consumes, consumes, form_consumes, salt):
+    """Cookie parameters become formData ones, requestBody becomes an `in: body` parameter plus `consumes` (operation level
+    or global); an operation that ends up with formData parameters gets no body parameter (the two exclude each other)."""
+    out = {"swagger": "2.0", "info": doc["info"], "paths": {}, "parameters": {k: _param2(v) for k, v in doc["components"]["parameters"].items()}, "securityDefinitions": doc["components"]["securitySchemes"]}
+    if "security" in doc:
+        out["security"] = doc["security"]
+
+    def conv_item(item, where):
+        new: dict = {}
+        if "parameters" in item:
+            new["parameters"] = [_param2(p) for p in item["parameters"]]
+        for m, op in item.items():
+            if m not in METHODS:
+                continue
+            nop = {k: v for k, v in op.items() if k not in ("requestBody", "parameters")}
+            params = [_param2(p) for p in op.get("parameters", [])]
+            merged = [resolve(out, q) for q in new.get("parameters", []) + params if "DoesNotExist" not in json.dumps(q)]
+            has_form = any(q.get("in") == "formData" for q in merged)
+            op_level = (sum(map(ord, where + m)) + salt) % 2 == 0  # some operations carry their own `consumes`, some rely on the global one
+            if "requestBody" in op and not has_form:
+                schema = next(iter(op["requestBody"]["content"].values()))["schema"]
+                params.append({"name": "body", "in": "body", "required": True, "schema": schema})
+                if consumes and op_level:
+                    nop["consumes"] = consumes
+            if has_form and form_consumes and op_level:
+                nop["consumes"] = form_consumes
+            if params:
+                nop["parameters"] = params
+            new[m] = nop
+        return new
+
+    for path, item in doc["paths"].items():
+        out["paths"][path] = item if "$ref" in item else conv_item(item, path)
+    if "x-items" in doc:
+        out["x-items"] = {k: conv_item(v, k) for k, v in doc["x-items"].items()}
+    if global_consumes:
+        out["consumes"] = global_consumes
+    return out
+
+
+def effective2(doc, broken):
+    """Swagger 2.0 reading: parameters merged by (name, in); `in: body` -> one alternative per consumed media type (default
+    application/json), formData parameters -> one composite alternative per consumed media type (default multipart)."""
+    out = {}
+    for path, item in doc["paths"].items():
+        item = resolve(doc, item)
+        shared = [resolve(doc, p) for p in item.get("parameters", [])]
+        for m, op in item.items():
+            if m not in METHODS:
+                continue
+            if [path, m] in broken:
+                out[(path, m)] = None
+                continue
+            local = [resolve(doc, p) for p in op.get("parameters", [])]
+            merged = {(p["name"], p["in"]): p for p in shared}
+            merged.update({(p["name"], p["in"]): p for p in local})
+            eff = {k: v for k, v in merged.items() if k[1] in ("query", "header", "path")}
+            form = {k[0]: v for k, v in merged.items() if k[1] == "formData"}
+            has_body = any(k[1] == "body" for k in merged)
+            consumes = op.get("consumes") or doc.get("consumes") or []
+            bodies = []
+            if has_body:
+                bodies += list(consumes or ["application/json"])
+            if form:
+                bodies += list(consumes or ["multipart/form-data"])
+            requirements = op["security"] if "security" in op else doc.get("security", [])
+            for name in [k for r in requirements for k in r]:
+                scheme = doc["securityDefinitions"][name]
+                eff.setdefault((scheme["name"], scheme["in"]), {"security": True})
+            out[(path, m)] = (eff, sorted(bodies), op.get("operationId"), form)
+    return out
 
 
 def effective(doc, broken):
@@ -213,8 +311,10 @@ def split_multi(doc, root_name="root.json"):
     items = root.pop("x-items", {})
     if not items:
         return root, None
-    decoys = {k: {"name": "decoy", "in": "query", "schema": {"type": "string", "enum": ["DECOY"]}} for k in root["components"]["parameters"]}
-    second = {"items": {}, "components": {"parameters": decoys}}
+    v2 = "swagger" in root
+    shared_params = root["parameters"] if v2 else root["components"]["parameters"]
+    decoys = {k: ({"name": "decoy", "in": "query", "type": "string", "enum": ["DECOY"]} if v2 else {"name": "decoy", "in": "query", "schema": {"type": "string", "enum": ["DECOY"]}}) for k in shared_params}
+    second = {"items": {}, "parameters": decoys} if v2 else {"items": {}, "components": {"parameters": decoys}}
     for name, item in items.items():
         second["items"][name] = _absolutise(item, root_name)
     for path, item in root["paths"].items():
@@ -226,7 +326,7 @@ def split_multi(doc, root_name="root.json"):
 def _absolutise(node, root_name):
     """Inside the second file references to the root's components must name the root file."""
     if isinstance(node, dict):
-        if "$ref" in node and isinstance(node["$ref"], str) and node["$ref"].startswith("#/components/"):
+        if "$ref" in node and isinstance(node["$ref"], str) and node["$ref"].startswith(("#/components/", "#/parameters/")):
             return {"$ref": "../" + root_name + node["$ref"]}
         return {k: _absolutise(v, root_name) for k, v in node.items()}
     if isinstance(node, list):
@@ -271,7 +371,8 @@ def check_document(ctx: Ctx, inp) -> None:
     from schemathesis.core.result import Err, Ok
 
     doc, broken = inp["doc"], inp["broken"]
-    eff = effective(doc, broken)
+    v2 = "swagger" in doc
+    eff = effective2(doc, broken) if v2 else effective(doc, broken)
     workdir = tempfile.mkdtemp(prefix="vfw-c08-", dir="/var/tmp")
     try:
         try:
@@ -281,7 +382,7 @@ def check_document(ctx: Ctx, inp) -> None:
             ctx.disagree(f"load-error:{type(exc).__name__}:{inp['format']}:{inp['layout']}", f"document failed to load: {exc!r}"[:400], input=inp)
             return
         overlap = _has_overlap(doc)
-        features = [f for f, on in (("overlap", overlap), ("ref-path-item", "x-items" in doc), ("broken-ref", bool(broken)), ("yaml", inp["format"] == "yaml-file"), ("multi-file", inp["layout"] == "multi" and "x-items" in doc), ("ref-params", bool(doc["components"]["parameters"]))) if on]
+        features = [f for f, on in (("overlap", overlap), ("ref-path-item", "x-items" in doc), ("broken-ref", bool(broken)), ("yaml", inp["format"] == "yaml-file"), ("multi-file", inp["layout"] == "multi" and "x-items" in doc), ("ref-params", bool(doc["parameters"] if v2 else doc["components"]["parameters"])), ("swagger2", v2), ("openapi31", str(doc.get("openapi", "")).startswith("3.1"))) if on]
         kinds = {h for h, _ in inp["history"]}
         nontrivial_doc = bool(features) and len(kinds) >= 2
         # serialisation clause
@@ -316,7 +417,7 @@ def check_document(ctx: Ctx, inp) -> None:
             if not candidates:
                 continue
             path, m = candidates[pick % len(candidates)]
-            exp, bodies, oid = eff[(path, m)]
+            oid = eff[(path, m)][2]
             try:
                 if how == "getitem":
                     op = schema[path][m.upper()]
@@ -346,8 +447,21 @@ def _compare(ctx, op, eff, how, inp):
     if key not in eff or eff[key] is None:
         ctx.disagree(f"{how}:undocumented-or-broken-operation-offered", f"{op.label} offered", input=inp)
         return
-    exp, bodies, _ = eff[key]
+    exp, bodies = eff[key][0], eff[key][1]
     got, got_bodies = observed(op)
+    if len(eff[key]) > 3:  # Swagger 2.0: the formData parameters travel as one composite body per media type
+        form = eff[key][3]
+        ctx.classes["swagger2:form-body" if form else "swagger2:json-body" if bodies else "swagger2:no-body"] += 1
+        for alt in op.body:
+            if isinstance(alt.definition, list):
+                names = sorted(p.name for p in alt.definition)
+                if names != sorted(form):
+                    ctx.disagree(f"{how}:form-parameter-set-differs", f"{op.label}: formData parameters {names} expected {sorted(form)}", input=inp)
+                else:
+                    for p in alt.definition:
+                        if _normalise(p.definition) != _normalise(form[p.name]):
+                            ctx.disagree(f"{how}:form-parameter-definition-differs", f"{op.label}: {p.name} is {p.definition} expected {form[p.name]}", input=inp)
+                            break
     dup = sorted(k for k, v in got.items() if len(v) > 1)
     if dup:
         ctx.disagree(f"{how}:parameter-kept-twice", f"{op.label}: {dup} present more than once", input=inp)
@@ -422,6 +536,6 @@ FLOOR = {"documents": 2000}
 MANIFEST = {
     "category": "exploration",
     "technique": "Hypothesis-generated documents x layouts x serialisations x access histories against an independent reference resolver",
-    "text": "Generated OpenAPI documents (path/operation-level parameter overlaps, $ref chains, $ref'd path items, broken references, security at three levels) are written as one file or several files (with decoy definitions under identical local references in the second file) in JSON or human-style YAML and loaded with from_dict / from_path / from_file; a drawn access history (iterate, schema[path][method], by operationId, by reference, in any order) is executed on one schema object and every returned operation is compared with the reference resolver's effective inputs; iteration must be in bijection with the documented operations (Ok, or Err naming the path); YAML loading must equal the JSON document.",
-    "note": "OpenAPI 3.0 only; recursion in parameter schemas and remote HTTP references are not generated.",
+    "text": "Generated OpenAPI 3.0 / 3.1 / Swagger 2.0 documents (path/operation-level parameter overlaps, $ref chains, $ref'd path items, broken references, security at three levels) are written as one file or several files (with decoy definitions under identical local references in the second file) in JSON or human-style YAML and loaded with from_dict / from_path / from_file; a drawn access history (iterate, schema[path][method], by operationId, by reference, in any order) is executed on one schema object and every returned operation is compared with the reference resolver's effective inputs; iteration must be in bijection with the documented operations (Ok, or Err naming the path); YAML loading must equal the JSON document.",
+    "note": "Recursion in parameter schemas and remote HTTP references are not generated.",
 }
